@@ -58,7 +58,7 @@ def gen_case(draw):
     lay["crlf"] = False
     ops = [draw(comment_op(i)) for i in range(draw(st.integers(1, 5)))]
     return {"src": "gen", "blocks": blocks, "layout": lay if draw(st.integers(0, 4)) else None, "ops": ops,
-            "noterm": draw(st.integers(0, 3)) == 0}
+            "noterm": draw(st.integers(0, 3)) == 0, "loud": draw(st.integers(0, 3)) == 0}
 
 
 @st.composite
@@ -241,6 +241,10 @@ class C08(Prop):
         for o in order:
             out.label("style:" + o["style"])
         out.label("src:" + case["src"])
+        if case["src"] == "gen" and case.get("loud"):
+            # every generated statement is supported, so silent=False returns the same entities - with or without comments
+            kw = dict(kw, silent=False)
+            out.label("silent=False")
         out.nontrivial = len(order) >= 2 and len(styles) >= 2 and stats["inside"] > 0
         out.label("inside_statement=%s" % (stats["inside"] > 0))
         r0 = loader.try_parse(base, **kw)
